@@ -45,4 +45,13 @@ def columnItem (rows column k : Nat) : Option (Nat × Nat) :=
 def diagonalItem (rows columns k : Nat) : Option (Nat × Nat) :=
   if k < min rows columns then some (k, k) else none
 
+/-- `next`, started in `s0`, yields `item 0, item 1, …` — which is `some _` exactly for the
+    first `total` calls — and never panics; `state k` is the iterator after `k` calls.
+    ("Each element of the range exactly once, in this order, then nothing, forever.") -/
+structure Enumerates {σ π : Type} (next : σ → EasyMl.Outcome (Option π × σ)) (s0 : σ) (total : Nat)
+    (item : Nat → Option π) (state : Nat → σ) : Prop where
+  start : state 0 = s0
+  step : ∀ k, next (state k) = .ok (item k, state (k + 1))
+  some_iff : ∀ k, (item k).isSome = true ↔ k < total
+
 end EasyMl.Spec
